@@ -1,7 +1,7 @@
 """Shared driver for the clustering properties (C01, C02, C09, C10): generators, real-code runner
 with recorded randomness, distance matrices as exact rationals, Coq terms for the model, and an
 independent Python statement of the invariants (the oracle)."""
-import hashlib, itertools
+import hashlib, itertools, signal, threading
 from fractions import Fraction as F
 import numpy as np
 from core import cn, cq, cb, clist, copt
@@ -54,6 +54,40 @@ def gen_matrix(rng, n, hi):
     return M, tri
 
 
+LAYOUTS = ["colsub", "stride", "F", "T", "rev", "colstride", "readonly"]
+
+
+def layout_of(A, layout):
+    """the values of the C-contiguous 2-D array A held in another memory layout (same shape, dtype, values);
+    the surrounding memory of the views holds other numbers, so that a reader ignoring the strides sees them"""
+    n, d = A.shape
+    if layout in (None, "C"):
+        return A
+    if layout == "F":
+        return np.asfortranarray(A)
+    if layout == "T":                               # transposed view of a (d, n) array
+        return np.ascontiguousarray(A.T).T
+    if layout == "colsub":                          # column subset of a wider feature matrix: big[:, 2:2+d]
+        big = np.full((n, d + 4), 71, dtype=A.dtype)
+        big[:, 2:2 + d] = A
+        return big[:, 2:2 + d]
+    if layout == "stride":                          # every other frame of a longer trajectory: long[::2]
+        lng = np.full((2 * n, d), 53, dtype=A.dtype)
+        lng[::2] = A
+        return lng[::2]
+    if layout == "colstride":                       # every other column
+        big = np.full((n, 2 * d), 37, dtype=A.dtype)
+        big[:, ::2] = A
+        return big[:, ::2]
+    if layout == "rev":                             # negative row stride
+        return np.ascontiguousarray(A[::-1])[::-1]
+    if layout == "readonly":
+        B = A.copy()
+        B.setflags(write=False)
+        return B
+    raise ValueError(layout)
+
+
 def make_X(case):
     if case.get("traj"):
         # an md.Trajectory whose frames are told apart by their time stamp; the metric is a user-supplied
@@ -64,29 +98,64 @@ def make_X(case):
         top.add_atom("CA", md.element.carbon, top.add_residue("ALA", top.add_chain()))
         return md.Trajectory(np.zeros((n, 1, 3), dtype=np.float32), top, time=np.arange(n, dtype=float))
     if case["metric"] == "matrix":
-        return np.arange(len(case["M"]), dtype=float).reshape(-1, 1)
-    return np.array(case["X"], dtype=case.get("dtype", "float64"))
+        return layout_of(np.arange(len(case["M"]), dtype=float).reshape(-1, 1), case.get("layout"))
+    A = np.array(case["X"], dtype=case.get("dtype", "float64"))
+    if case.get("scale_exp"):                 # tiny length scale: coordinates x 2^-e (exact in float32/64)
+        assert A.dtype.kind == "f", "tiny-scale cases need a float dtype"
+        A = A * A.dtype.type(2.0 ** -case["scale_exp"])
+    return layout_of(A, case.get("layout"))
 
 
-def make_metric(case):
+class _Buffered:
+    """a metric that computes into, and returns, one shared float64 output array per query length (what
+    `lambda X, y: libdist.euclidean(X, y, out=buf)` does): each call returns correct distances, in the array
+    the previous call of that length returned"""
+
+    def __init__(self, inner, named):
+        self.inner, self.named, self.bufs = inner, named, {}
+
+    def __call__(self, X, y):
+        n = len(X)
+        buf = self.bufs.get(n)
+        if buf is None:
+            buf = self.bufs[n] = np.empty(n, dtype=np.float64)
+        if self.named:
+            return self.inner(X, y, out=buf)        # the library's own `out=` parameter
+        buf[:] = self.inner(X, y)
+        return buf
+
+
+def make_metric(case, plain=False):
+    """the metric handed to the implementation; plain=True: never the buffer-reusing variant"""
+    sc = 2.0 ** -case.get("scale_exp", 0)
     if case.get("traj"):
-        M = np.array([[float(F(v)) for v in row] for row in case["M"]], dtype=float)
+        M = np.array([[float(F(v)) for v in row] for row in case["M"]], dtype=float) * sc
 
         def dmt(X, y):
             return M[np.asarray(X.time).astype(int), int(np.asarray(y.time)[0])]
-        return dmt
-    if case["metric"] == "matrix":
-        M = np.array(case["M"], dtype=float)
+        m = dmt
+    elif case["metric"] == "matrix":
+        M = np.array(case["M"], dtype=float) * sc
 
         def dm(X, y):
             return M[np.asarray(X)[:, 0].astype(int), int(np.asarray(y)[0])]
-        return dm
-    return case["metric"]
+        m = dm
+    else:
+        m = case["metric"]
+    if case.get("buf") and not plain:
+        if isinstance(m, str):
+            from enspara.cluster import util
+            return _Buffered(util._get_distance_method(m), True)
+        return _Buffered(m, False)
+    return m
 
 
 def dist_matrix(X, metric):
+    """the metric on the *values* of the data: evaluated on a fresh C-contiguous copy"""
     from enspara.cluster import util
     dm = util._get_distance_method(metric)
+    if isinstance(X, np.ndarray):
+        X = np.array(X, order="C", copy=True)
     return [[F(float(v)) for v in dm(X, X[c])] for c in range(len(X))]
 
 
@@ -118,7 +187,12 @@ class RecordingRandomState(np.random.RandomState):
 def xhash(X):
     if hasattr(X, "xyz"):
         return hashlib.sha256(np.ascontiguousarray(X.xyz).tobytes() + np.ascontiguousarray(X.time).tobytes()).hexdigest()
-    return hashlib.sha256(np.ascontiguousarray(X).tobytes()).hexdigest()
+    h = hashlib.sha256(np.ascontiguousarray(X).tobytes())
+    base = getattr(X, "base", None)
+    if isinstance(base, np.ndarray):          # a view: the memory around it must stay as it was, too
+        h.update(np.ascontiguousarray(base).tobytes())
+    h.update(repr((X.shape, X.strides, str(X.dtype))).encode())
+    return h.hexdigest()
 
 
 def canon(result, X):
@@ -133,21 +207,145 @@ def canon(result, X):
 
 
 # ----------------------------------------------------------------------------- real-code runner
+class CaseTimeout(Exception):
+    pass
+
+
+class Watchdog:
+    """bounds the wall time of one run of the real code (a clustering loop that never meets its stopping rule
+    would otherwise hang the check and eat memory): raises CaseTimeout inside the running Python code, again
+    every `seconds` while the guarded block is still running.  Only the outermost guard arms the timer
+    (run_case re-enters itself for prefix runs); ordinary cases take milliseconds.  After three timeouts in
+    one process (never on a tree that terminates) the limit drops so that a check of a broken tree ends."""
+    depth = 0
+    fired_total = 0
+    fired_now = False
+
+    def __init__(self, seconds=None):
+        self.seconds = seconds or (10.0 if Watchdog.fired_total < 3 else 2.0)
+        self.armed = False
+
+    def _fire(self, signum, frame):
+        Watchdog.fired_total += 1
+        Watchdog.fired_now = True
+        raise CaseTimeout("no result after %.0f s" % self.seconds)
+
+    def __enter__(self):
+        Watchdog.depth += 1
+        if Watchdog.depth == 1 and threading.current_thread() is threading.main_thread():
+            Watchdog.fired_now = False
+            self.old = signal.signal(signal.SIGALRM, self._fire)
+            signal.setitimer(signal.ITIMER_REAL, self.seconds, self.seconds)
+            self.armed = True
+        return self
+
+    def __exit__(self, *exc):
+        Watchdog.depth -= 1
+        if self.armed:
+            signal.setitimer(signal.ITIMER_REAL, 0)
+            signal.signal(signal.SIGALRM, self.old)
+        return False
+
+
+def err_failure(out):
+    if out.get("err") == "CaseTimeout":
+        return ("does-not-terminate", "the call did not return: %s" % out.get("msg"))
+    return ("impl-error", "%s: %s" % (out["err"], out.get("msg")))
+
+
+class _Init:
+    """initial centres of a warm start in one of the containers callers use (2-D array / md.Trajectory slice,
+    Python list of frames, the `.centers` list of an earlier result), with snapshots for the argument-unchanged
+    check.  Every form holds the frames c["init"] in that order, so oracle and model apply unchanged."""
+
+    def __init__(self, c, X, metric, form=None):
+        from enspara.cluster import kcenters as KC
+        self.X, self.r0, self.obj = X, None, None
+        self.form = form or c.get("init_form") or "array"
+        if c.get("init_pts") is not None:      # initial centres that are NOT frames of the data (e.g. centroids)
+            self.obj = np.array(c["init_pts"], dtype=X.dtype)
+        elif c.get("init") is not None:
+            idx = list(c["init"])
+            if self.form == "array":
+                self.obj = X[idx]
+            elif self.form == "list":
+                self.obj = [X[i] for i in idx]
+            elif self.form == "result":
+                # an earlier clustering with exactly these centres; its list of centre frames is handed on
+                self.r0 = KC.kcenters(X, metric, init_centers=X[idx], n_clusters=len(idx))
+                self.obj = self.r0.centers
+                self.r0_snap = (canon(self.r0, X), len(self.r0.centers))
+            else:
+                raise ValueError(self.form)
+        self.snap = self._snapshot()
+
+    def _snapshot(self):
+        o = self.obj
+        if o is None:
+            return None
+        if isinstance(o, list):
+            return ("list", len(o), [id(e) for e in o], [xhash(e) for e in o])
+        return (type(o).__name__, len(o), xhash(o))
+
+    def problems(self):
+        """what changed in the caller's objects since construction (plain strings)"""
+        out = []
+        now = self._snapshot()
+        if now != self.snap:
+            if now is not None and now[1] != self.snap[1]:
+                out.append("init_centers (%s) had %d entries before the call and %d after" % (self.form, self.snap[1], now[1]))
+            else:
+                out.append("init_centers (%s) was modified" % self.form)
+        if self.r0 is not None:
+            k_idx, k_cen = len(self.r0.center_indices), len(self.r0.centers)
+            if k_idx != k_cen:
+                out.append("the earlier result whose .centers were passed on now has %d centre indices but %d centre frames" % (k_idx, k_cen))
+            elif (canon(self.r0, self.X), k_cen) != self.r0_snap:
+                out.append("the earlier result whose .centers were passed on was modified")
+        return out
+
+
+def _reuse(est, h, final, X, prefit_kw=None):
+    """estimator history between construction and the fit under test: optional earlier fit (same or other
+    data), then the parameters are brought to `final` through set_params and / or attribute assignment"""
+    if h.get("prefit"):
+        Xp = X if h["prefit"] == "same" else X[list(h["perm"])]
+        est.fit(Xp, **(prefit_kw or {}))
+    for j, nm in enumerate(sorted(final)):
+        if h["via"] == "set_params" or (h["via"] == "both" and j % 2 == 0):
+            est.set_params(**{nm: final[nm]})
+        else:
+            setattr(est, nm, final[nm])
+
+
 def run_case(c):
     """Runs the real entry point of the case; returns canonical result + the distance matrix."""
+    with Watchdog():
+        if Watchdog.fired_now and Watchdog.depth > 1:      # an enclosing run already timed out: do not start another
+            return {"err": "CaseTimeout", "msg": "enclosing run timed out"}
+        return _run_case(c)
+
+
+def _run_case(c):
     from enspara.cluster import kcenters as KC, kmedoids as KM, hybrid as KH, util
     X = make_X(c)
     metric = make_metric(c)
+    plain = make_metric(c, plain=True)
     h0 = xhash(X)
     out = {}
+    arg_problems = []
     try:
-        out["D"] = [[str(v) for v in row] for row in dist_matrix(X, metric)]
+        out["D"] = [[str(v) for v in row] for row in dist_matrix(X, plain)]
         kind = c["kind"]
+        hist = c.get("hist")
         if kind == "kcenters":
-            init = None if c.get("init") is None else X[c["init"]]
+            ini = _Init(c, X, plain)
             if c.get("form") == "class":
-                est = KC.KCenters(metric, n_clusters=c["nclu"], cluster_radius=c["cutoff"])
-                est.fit(X, init_centers=init)
+                a0 = hist["ctor"] if hist else {"nclu": c["nclu"], "cutoff": c["cutoff"]}
+                est = KC.KCenters(metric, n_clusters=a0["nclu"], cluster_radius=a0["cutoff"])
+                if hist:
+                    _reuse(est, hist, {"n_clusters": c["nclu"], "cluster_radius": c["cutoff"]}, X)
+                est.fit(X, init_centers=ini.obj)
                 res = est.result_
                 out["attrs_ok"] = bool(np.array_equal(est.labels_, res.assignments) and
                                        np.array_equal(est.distances_, res.distances) and
@@ -158,9 +356,18 @@ def run_case(c):
                     kw["n_clusters"] = c["nclu"]
                 if c["cutoff"] is not None or c.get("explicit_none"):
                     kw["dist_cutoff"] = c["cutoff"]
-                res = KC.kcenters(X, metric, init_centers=init,
+                res = KC.kcenters(X, metric, init_centers=ini.obj,
                                   use_triangle_inequality=bool(c.get("ti")), **kw)
             out["res"] = canon(res, X)
+            arg_problems += ini.problems()
+            if c.get("form") == "class" and hist:
+                # the same fit through the function form with the estimator's current parameters, and a second fit
+                ref = KC.kcenters(X, plain, n_clusters=c["nclu"], dist_cutoff=c["cutoff"],
+                                  init_centers=_Init(c, X, plain, form="array").obj)
+                out["func_equal"] = bool(canon(ref, X) == out["res"])
+                if hist.get("refit"):
+                    est.fit(X, init_centers=_Init(c, X, plain, form="array").obj)
+                    out["refit_equal"] = bool(canon(est.result_, X) == out["res"])
         elif kind == "kmedoids":
             rec = RecordingRandomState(c["seed"])
             dmf = util._get_distance_method(metric)
@@ -169,7 +376,36 @@ def run_case(c):
             if c.get("proposals") is not None:
                 kw["proposals"] = list(c["proposals"])
                 props_arg = kw["proposals"]
-            if start["how"] == "cold":
+            if c.get("form") == "class":
+                # estimator form: KMedoids.fit takes the start state; proposals come from NumPy's global
+                # RandomState (seeded here, restored afterwards); the function form with a recording
+                # RandomState seeded alike gives the proposals for the model
+                a0 = hist["ctor"] if hist else {"k": start["k"], "n_iters": c["n_iters"]}
+                est = KM.KMedoids(metric, n_clusters=a0["k"], n_iters=a0["n_iters"])
+                if start["how"] == "centers":
+                    out["start_ctrs"] = list(start["ctrs"])
+                    mk = lambda: dict(cluster_center_inds=list(start["ctrs"]))
+                else:
+                    r0 = KC.kcenters(X, plain, n_clusters=start["k"])
+                    out["start_ctrs"] = [int(i) for i in r0.center_indices]
+                    mk = lambda: dict(assignments=r0.assignments.copy(), distances=r0.distances.copy(),
+                                      **({"cluster_center_inds": list(r0.center_indices)} if start.get("give_ctrs", True) else {}))
+                saved = np.random.get_state()
+                try:
+                    if hist:
+                        _reuse(est, hist, {"n_clusters": start["k"], "n_iters": c["n_iters"]}, X,
+                               prefit_kw={"cluster_center_inds": [0]})
+                    np.random.seed(c["seed"])
+                    args = mk()
+                    snap = {k: (list(v) if isinstance(v, list) else v.copy()) for k, v in args.items()}
+                    est.fit(X, **args)
+                    res = est.result_
+                    out["args_unchanged"] = all(np.array_equal(np.asarray(args[k]), np.asarray(snap[k])) for k in snap)
+                finally:
+                    np.random.set_state(saved)
+                ref = KM.kmedoids(X, plain, n_iters=c["n_iters"], random_state=rec, **mk())
+                out["func_equal"] = bool(canon(ref, X) == canon(res, X))
+            elif start["how"] == "cold":
                 # public cold-start path with an integer seed; the proposals it drew are recovered by
                 # chaining the real per-sweep routine from the real start state with a recording
                 # RandomState seeded the same way (check_random_state(int) builds one per sweep)
@@ -221,13 +457,16 @@ def run_case(c):
                 out["repeat_equal"] = (out["prefix"][-1] == out["res"])
         elif kind == "hybrid":
             rec = RecordingRandomState(c["seed"])
-            init = None if c.get("init") is None else X[c["init"]]
-            if c.get("init_pts") is not None:      # initial centres that are NOT frames of the data (e.g. centroids)
-                init = np.array(c["init_pts"], dtype=X.dtype)
+            ini = _Init(c, X, plain)
             if c.get("form") == "class":
-                est = KH.KHybrid(metric, n_clusters=c["nclu"], cluster_radius=c["cutoff"],
-                                 kmedoids_updates=c["n_iters"], random_state=rec)
-                est.fit(X, init_centers=init)
+                a0 = hist["ctor"] if hist else {"nclu": c["nclu"], "cutoff": c["cutoff"], "n_iters": c["n_iters"]}
+                est = KH.KHybrid(metric, n_clusters=a0["nclu"], cluster_radius=a0["cutoff"],
+                                 kmedoids_updates=a0["n_iters"], random_state=rec)
+                if hist:
+                    _reuse(est, hist, {"n_clusters": c["nclu"], "cluster_radius": c["cutoff"],
+                                       "kmedoids_updates": c["n_iters"]}, X)
+                    rec.log = []          # proposals of the earlier fit are not part of the run under test
+                est.fit(X, init_centers=ini.obj)
                 res = est.result_
             else:
                 kw = {}
@@ -235,15 +474,16 @@ def run_case(c):
                     kw["n_clusters"] = c["nclu"]
                 if c["cutoff"] is not None:
                     kw["dist_cutoff"] = c["cutoff"]
-                res = KH.hybrid(X, metric, n_iters=c["n_iters"], init_centers=init, random_state=rec, **kw)
+                res = KH.hybrid(X, metric, n_iters=c["n_iters"], init_centers=ini.obj, random_state=rec, **kw)
             out["res"] = canon(res, X)
             out["proposals_log"] = list(rec.log)
+            arg_problems += ini.problems()
             kw2 = {}
             if c["nclu"] is not None:
                 kw2["n_clusters"] = c["nclu"]
             if c["cutoff"] is not None:
                 kw2["dist_cutoff"] = c["cutoff"]
-            out["kc"] = canon(KC.kcenters(X, metric, init_centers=init, **kw2), X)
+            out["kc"] = canon(KC.kcenters(X, plain, init_centers=_Init(c, X, plain, form="array").obj, **kw2), X)
             if c.get("extras"):
                 out["prefix"] = [out["kc"]]
                 for j in range(1, c["n_iters"] + 1):
@@ -258,7 +498,10 @@ def run_case(c):
     except Exception as ex:
         out["err"] = type(ex).__name__
         out["msg"] = str(ex)[:200]
+        out.pop("res", None)
     out["X_unchanged"] = (xhash(X) == h0)
+    if arg_problems:
+        out["arg_problems"] = arg_problems
     return out
 
 
@@ -321,6 +564,26 @@ def inv_failures(out, tag=""):
         fails.append(("input-modified", "the data array was modified"))
     if out.get("args_unchanged") is False:
         fails.append(("input-modified", "caller-supplied assignments / distances / cluster_center_inds were modified"))
+    for msg in out.get("arg_problems", []):
+        fails.append(("input-modified", msg))
+    return fails
+
+
+def hist_failures(c, out):
+    """estimator form = function form called with the estimator's *current* parameters, whatever happened to
+    the estimator between construction and this fit (set_params, attribute assignment, earlier fits)"""
+    fails = []
+    if out.get("func_equal") is False:
+        fails.append(("estimator-differs-from-function", "estimator history %s: fit differs from the function form called with the "
+                      "estimator's current parameters (n_clusters=%s, radius=%s, sweeps=%s)" % (
+                          c.get("hist"), c.get("nclu", c.get("start", {}).get("k")), c.get("cutoff"), c.get("n_iters"))))
+    if out.get("refit_equal") is False:
+        fails.append(("refit-differs", "a second fit of the same estimator on the same data gave another result"))
+    if "res" in out and c["kind"] in ("kmedoids", "hybrid") and c.get("proposals") is None and c.get("init_pts") is None:
+        k = len(out["res"]["ctrs"])
+        if len(out.get("proposals_log", [])) != k * c["n_iters"]:
+            fails.append(("sweep-count", "%d proposals were drawn for %d clusters and %d requested sweeps" % (
+                len(out.get("proposals_log", [])), k, c["n_iters"])))
     return fails
 
 
@@ -349,7 +612,47 @@ def _base(rng, nmax, pam):
     if c["metric"] != "matrix":
         c["dtype"] = rng.choice(["float64", "float64", "float32", "int32", "int64"])
     c["n"] = n
+    if rng.random() < 0.3:
+        c["layout"] = rng.choice(LAYOUTS)     # same values, another memory layout of the data array
+    if rng.random() < 0.12:
+        c["buf"] = True                       # the metric returns its result in a reused output buffer
     return c
+
+
+def _tiny(rng, c):
+    """the same geometry at a tiny length scale (x 2^-14 .. 2^-20, exact in float32/float64): every frame is
+    then within 1e-3 of every other one, so absolute tolerances in the code stop telling frames apart"""
+    if c.get("dtype", "float64") in ("int32", "int64"):
+        c["dtype"] = "float64"
+    c["scale_exp"] = rng.randint(14, 20)
+    if c.get("cutoff") is not None:
+        c["cutoff"] = float(c["cutoff"]) * 2.0 ** -c["scale_exp"]
+
+
+def gen_init_form(rng):
+    return rng.choice(["array", "array", "list", "list", "result"])
+
+
+def gen_hist(rng, c):
+    """estimator-reuse history for an estimator-form case: the estimator is constructed with other stopping
+    parameters, optionally fitted (same / other data), then brought to the case's parameters"""
+    n = c["n"]
+    h = {"via": rng.choice(["set_params", "attr", "both"]), "prefit": rng.choice([None, None, "same", "other"])}
+    if h["prefit"] == "other":
+        h["perm"] = rng.sample(range(n), rng.randint(1, n))
+    if c["kind"] == "kmedoids":
+        h["ctor"] = {"k": rng.choice([None, 1, 2, c["start"]["k"]]), "n_iters": rng.randint(1, 4)}
+        return h
+    k0 = rng.choice([None, 1, 2, rng.randint(1, n + 2)])
+    r0 = rng.choice([None, None, 1, 2.5, 5])
+    if k0 is None and r0 is None:
+        k0 = rng.randint(1, n + 2)
+    h["ctor"] = {"nclu": k0, "cutoff": r0}
+    if c["kind"] == "hybrid":
+        h["ctor"]["n_iters"] = rng.randint(0, 3)
+    else:
+        h["refit"] = rng.random() < 0.5
+    return h
 
 
 def gen_kcenters(rng, nmax=12):
@@ -364,7 +667,11 @@ def gen_kcenters(rng, nmax=12):
     c["init"] = None
     if rng.random() < 0.35:
         c["init"] = rng.sample(range(n), rng.randint(1, min(3, n)))
-    c["form"] = "class" if rng.random() < 0.25 else "func"
+    if c["init"] is not None:
+        c["init_form"] = gen_init_form(rng)
+    c["form"] = "class" if rng.random() < 0.3 else "func"
+    if c["form"] == "class" and rng.random() < 0.6:
+        c["hist"] = gen_hist(rng, c)
     c["ti"] = (c["form"] == "func" and rng.random() < 0.5)
     if c["form"] == "func" and rng.random() < 0.25:
         c["explicit_none"] = True          # pass n_clusters=None / dist_cutoff=None explicitly
@@ -387,6 +694,17 @@ def gen_traj_kcenters(rng):
     if rng.random() < 0.4:
         vals = sorted({F(v) for row in M for v in row if F(v) > 0})
         c["nclu"], c["cutoff"] = None, float(rng.choice(vals))       # a cutoff equal to an attained distance
+    if rng.random() < 0.5:          # warm start from an md.Trajectory slice / a list of one-frame trajectories
+        c["init"] = rng.sample(range(n), rng.randint(1, min(3, n)))
+        c["init_form"] = gen_init_form(rng)
+        if c["nclu"] is not None:
+            c["nclu"] = rng.randint(1, n)
+    if rng.random() < 0.3:
+        c["form"] = "class"
+        if rng.random() < 0.5:
+            c["hist"] = gen_hist(rng, c)
+    if rng.random() < 0.15:
+        c["buf"] = True
     return c
 
 
@@ -436,6 +754,12 @@ def gen_kmedoids(rng, nmax=11):
     if rng.random() < 0.35:
         c["proposals"] = [rng.randrange(n) for _ in range(k)]
     c["form"] = "func"
+    if rng.random() < 0.2:
+        _tiny(rng, c)
+    if how in ("centers", "state") and c["proposals"] is None and rng.random() < 0.35:
+        c["form"] = "class"               # KMedoids estimator (fit takes the start state; global RandomState)
+        if rng.random() < 0.7:
+            c["hist"] = gen_hist(rng, c)
     return c
 
 
@@ -465,10 +789,113 @@ def gen_hybrid(rng, nmax=11):
     c["nclu"] = rng.randint(1, min(n, 6)) if mode in ("k", "both") else None
     c["cutoff"] = rng.choice([1, 2, 3, 5]) if mode in ("r", "both") else None
     c["init"] = None
+    if rng.random() < 0.3:
+        c["init"] = rng.sample(range(n), rng.randint(1, min(3, n)))
+        c["init_form"] = gen_init_form(rng)
     c["n_iters"] = rng.randint(0, 3)
     c["seed"] = rng.randrange(10 ** 6)
     c["form"] = "class" if rng.random() < 0.3 else "func"
+    if rng.random() < 0.15:
+        _tiny(rng, c)
+    if c["form"] == "class" and rng.random() < 0.6:
+        c["hist"] = gen_hist(rng, c)
     return c
+
+
+def _as_class(rng, c):
+    """turn a generated case into its estimator form (where the estimator offers the case's options)"""
+    if c["kind"] == "kcenters":
+        c["form"], c["ti"] = "class", False
+        c.pop("explicit_none", None)
+        if c["nclu"] is None and c["cutoff"] is None:
+            c["nclu"] = rng.randint(1, c["n"])
+        return True
+    if c["kind"] == "kmedoids":
+        if c["start"]["how"] not in ("centers", "state") or c.get("proposals") is not None:
+            return False
+        c["form"] = "class"
+        return True
+    c["form"] = "class"
+    return True
+
+
+def gen_axis_streams(rng, kinds, reps=1):
+    """cases that force every value of the input-class axes (memory layout of the data, container of the warm
+    start centres, buffer-reusing metric, estimator-reuse histories) for every entry point in `kinds`
+    (kcenters / kmedoids / hybrid / traj), so that each class is exercised in every run"""
+    gens = {"kcenters": gen_kcenters, "kmedoids": gen_kmedoids, "hybrid": gen_hybrid, "traj": gen_traj_kcenters}
+    out = []
+
+    def draw(kind, pred=lambda c: True):
+        while True:
+            c = gens[kind](rng)
+            if pred(c):
+                for k in ("layout", "buf", "hist"):
+                    c.pop(k, None)
+                if c.get("form") == "class" and kind == "kcenters" and rng.random() < 0.5:
+                    c["form"] = "func"
+                return c
+
+    for _ in range(reps):
+        for kind in kinds:
+            # memory layouts (library metrics on numeric arrays)
+            if kind != "traj":
+                for lay in LAYOUTS:
+                    c = draw(kind, lambda c: c["metric"] != "matrix" and c["n"] >= 3)
+                    c["layout"] = lay
+                    c["dtype"] = rng.choice(["float64", "float64", "float32"] + ([] if c.get("scale_exp") else ["int64"]))
+                    if len(c["X"][0]) == 1 and lay in ("F", "T"):        # (n,1) is contiguous either way: use >= 2 columns
+                        c["X"] = [p + [rng.randrange(3)] for p in c["X"]]
+                        if c["metric"] == "euclidean" and c["kind"] != "kcenters":
+                            c["metric"] = "manhattan"                     # keep the PAM cost exact
+                    out.append(c)
+            # containers of the initial centres
+            if kind != "kmedoids":
+                for form in ("array", "list", "result"):
+                    for want_class in (False, True):
+                        c = draw(kind)
+                        n = c["n"]
+                        if c.get("init") is None:
+                            c["init"] = rng.sample(range(n), rng.randint(1, min(3, n)))
+                        c["init_form"] = form
+                        if c["nclu"] is not None and rng.random() < 0.7:
+                            c["nclu"] = min(n, len(c["init"]) + rng.randint(1, 3))     # the run adds centres
+                        if want_class:
+                            _as_class(rng, c)
+                        elif kind != "hybrid":
+                            c["form"] = "func"
+                        out.append(c)
+            # metric returning a reused buffer
+            for want_init in (False, True):
+                c = draw(kind)
+                c["buf"] = True
+                if want_init and kind != "kmedoids":
+                    c["init"] = rng.sample(range(c["n"]), rng.randint(2, min(3, c["n"])))
+                    c["init_form"] = gen_init_form(rng)
+                out.append(c)
+            # tiny length scale; for k-medoids: warm start from labels + distances without centre indices
+            if kind in ("kmedoids", "hybrid"):
+                for met in ("matrix", "manhattan", "euclidean"):
+                    c = draw(kind, lambda c: c["metric"] == met and c["n"] >= 5 and
+                             (kind != "kmedoids" or (c["start"]["how"] == "state" and c["start"]["k"] >= 2)))
+                    if kind == "kmedoids":
+                        c["start"]["give_ctrs"] = False
+                        c["form"] = "func"
+                    _tiny(rng, c)
+                    out.append(c)
+            # estimator-reuse histories
+            for via in ("set_params", "attr", "both"):
+                for prefit in (None, "same", "other"):
+                    c = draw(kind, lambda c: _as_class(rng, dict(c, start=dict(c.get("start", {})))))
+                    _as_class(rng, c)
+                    h = gen_hist(rng, c)
+                    h["via"], h["prefit"] = via, prefit
+                    h.pop("perm", None)
+                    if prefit == "other":
+                        h["perm"] = rng.sample(range(c["n"]), rng.randint(1, c["n"]))
+                    c["hist"] = h
+                    out.append(c)
+    return out
 
 
 def model_term(c, out):
@@ -562,4 +989,22 @@ def common_tags(c, out):
         t.append("explicit-none-args")
     if c.get("traj"):
         t.append("md-trajectory-input")
+    if c.get("init") is not None:
+        t.append("init-" + (c.get("init_form") or "array"))
+        if c.get("traj"):
+            t.append("warm-init-md-trajectory")
+    if c.get("layout") and c["metric"] != "matrix" and not c.get("traj"):
+        t.append("non-contiguous-data" if c["layout"] != "readonly" else "readonly-data")
+        t.append("layout-" + c["layout"])
+    if c.get("scale_exp"):
+        t.append("tiny-scale")
+        if c["kind"] == "kmedoids" and c["start"]["how"] == "state" and not c["start"].get("give_ctrs", True):
+            t.append("tiny-scale-start-without-centres")
+    if c.get("buf"):
+        t.append("buffer-reusing-metric")
+    if c.get("hist"):
+        t.append("estimator-history")
+        t.append("estimator-history-" + c["kind"])
+        if c["hist"].get("prefit"):
+            t.append("estimator-refit-" + c["hist"]["prefit"])
     return t
